@@ -61,6 +61,7 @@ class Gen:
         ntxn = ntxn if ntxn is not None else r.randint(1, 6)
         day = 1
         OKF = ["plain", "plain", "omitted", "omitted", "cost", "lot", "pair", "assign", "assert", "expr", "multi-omitted",
+               "assert-cost", "cancel-assert",
                "assign-zero", "total-cost", "neg-total"]
         ERRF = ["assert-false", "unbalanced", "zero-entry", "same-sign", "two-omitted", "zero-rate", "same-commodity-rate",
                 "bare-number", "half-unit", "three-commodity", "lot-and-cost"]
@@ -202,6 +203,29 @@ class Gen:
             s1 = self.assertion(bal, known, a1, c, ok) if which in (0, 2) else ""
             s2 = self.assertion(bal, known, a2, c, ok if which != 2 else True) if which in (1, 2) else ""
             return [P(a1, "%s %s%s" % (fmt(v), c, s1)), P(a2, "%s %s%s" % (fmt(-v), c, s2))]
+        if fl == "assert-cost":
+            # assertion on a posting that also carries a cost / lot price (true or false at random)
+            others = [x for x in coms if x != c]
+            if not others:
+                return self.txn("assert", coms, accts, prec, bal, known)
+            c2 = r.choice(others)
+            rate = Fraction(r.choice(RATES))
+            self.track(bal, known, a1, c, v)
+            ok = r.random() < 0.6
+            s1 = self.assertion(bal, known, a1, c, ok)
+            known[a2] = False
+            form = r.choice(["%s %s @ %s %s%s", "%s %s {%s %s}%s"])
+            return [P(a1, form % (fmt(v), c, fmt(rate), c2, s1)), P(a2, "%s %s" % (fmt(-v * rate), c2))]
+        if fl == "cancel-assert":
+            # the account is brought back to nothing in commodity c, then asserted
+            w = self.value()
+            self.track(bal, known, a1, c, w)
+            self.track(bal, known, a2, c, -w)
+            first = [P(a1, "%s %s" % (fmt(w), c)), P(a2, "%s %s" % (fmt(-w), c))]
+            self.track(bal, known, a1, c, -w)
+            self.track(bal, known, a2, c, w)
+            s1 = self.assertion(bal, known, a1, c, r.random() < 0.8)
+            return first + [P(a1, "%s %s%s" % (fmt(-w), c, s1)), P(a2, "%s %s" % (fmt(w), c))]
         if fl == "unbalanced":
             known[a1] = known[a2] = False
             return [P(a1, "%s %s" % (fmt(v), c)), P(a2, "%s %s" % (fmt(-v + r.choice([1, -1, Fraction(1, 100)])), c))]
